@@ -109,12 +109,43 @@ static void outermost_rounds(unsigned seed, int K, int rounds, int extra, Out& o
     o.word("NOTONCE"); o.put(notonce); o.word("TWICE"); o.put(0); o.word("EARLYWAIT"); o.put(early); o.word("TWOTHREADS"); o.put(foreign_thread);
 }
 
+// mode 8: the group of a suspended task is CANCELLED while the task is suspended; the resume comes afterwards from the main thread while the arena's worker is busy in
+// another group: the suspended code must still continue exactly once (a resumed task is not "skipped because its group was cancelled") and task_group::wait must return.
+// P = arena size, n = rounds.   output: NOTONCE / TWICE 0 / EARLYWAIT (wait returned before the continuation) / TWOTHREADS 0
+static void cancelled_rounds(unsigned seed, int P, int rounds, Out& o) {
+    std::mt19937 r(seed);
+    long notonce = 0, early = 0;
+    tbb::task_arena arena(P);
+    for (int round = 0; round < rounds; ++round) {
+        std::atomic<tbb::task::suspend_point> sp{nullptr}; std::atomic<int> continued{0}, busy_go{0}, busy_in{0}, waited{0};
+        tbb::task_group tg, other;
+        std::thread runner([&] { arena.execute([&] {
+            tg.run([&] { tbb::task::suspend([&](tbb::task::suspend_point p) { sp = p; }); ++continued; });
+            for (int k = 0; k < 40000 && sp.load() == nullptr; ++k) std::this_thread::sleep_for(std::chrono::microseconds(100));
+            if (r() % 2) { other.run([&] { busy_in = 1; while (!busy_go.load()) std::this_thread::yield(); }); }     // keeps a thread of the arena busy in a blocking task
+            std::this_thread::sleep_for(std::chrono::milliseconds(2 + r() % 10));
+            if (sp.load() == nullptr) { busy_go = 1; tg.wait(); other.wait(); continued = 1; waited = 1; return; }   // no other thread took the task in time: the round says nothing
+            tg.cancel();
+            tbb::task::resume(sp.load());
+            tg.wait();
+            if (continued.load() != 1) early++;
+            waited = 1; busy_go = 1; other.wait();
+        }); });
+        for (int k = 0; k < 80000 && !waited.load(); ++k) std::this_thread::sleep_for(std::chrono::microseconds(100));
+        if (!waited.load()) { notonce++; o.word("NOTONCE"); o.put(notonce); o.word("TWICE"); o.put(0); o.word("EARLYWAIT"); o.put(early); o.word("TWOTHREADS"); o.put(0); o.flush(); std::_Exit(0); }
+        runner.join();
+        if (continued.load() != 1) notonce++;
+    }
+    o.word("NOTONCE"); o.put(notonce); o.word("TWICE"); o.put(0); o.word("EARLYWAIT"); o.put(early); o.word("TWOTHREADS"); o.put(0);
+}
+
 int main() {
     std::vector<i128> c; Out o; Watchdog wd(30.0);
     while (read_case(c)) {
         unsigned seed = (unsigned)c[0]; int P = (int)c[1]; int n = (int)c[2]; int mode = (int)c[3]; bool nested = c[4] != 0;
         if (mode == 5 || mode == 6) { wd.arm(&o); waiter_rounds(seed, P, n, mode == 6, o); wd.disarm(); o.flush(); continue; }
         if (mode == 7) { outermost_rounds(seed, P, n, nested ? 2 : 0, o); o.flush(); continue; }
+        if (mode == 8) { cancelled_rounds(seed, P, n, o); o.flush(); continue; }
         std::vector<std::atomic<int>> cont(2 * n); for (auto& x : cont) x = 0;
         std::atomic<long> early{0}, two_threads{0}, other_work{0};
         std::vector<std::atomic<int>> running(2 * n); for (auto& x : running) x = 0;
